@@ -73,7 +73,7 @@ func (c14) Components() ([]string, []string) {
 
 func (c14) Generate(r *simkit.Rand, tier string) any {
 	c := &C14Case{Pool: r.Range(1, 3), PreTerm: r.Chance(0.25), InFlight: simkit.Pick(r, "", "call", "call", "important"),
-		Fault: simkit.Pick(r, "cutall", "cutone", "stop", "crash", "restart", "restart", "partition", "partition", "termcrash", "termcrash", "netstop"), Segment: r.Bool()}
+		Fault: simkit.Pick(r, "cutall", "cutone", "stop", "crash", "restart", "restart", "partition", "partition", "termcrash", "termcrash", "netstop", "halfopen"), Segment: r.Bool()}
 	c.TermGapMs = simkit.Pick(r, -1, -1, -1, 0, 1, 2, 3, 4, 5, 7)
 	c.Phase2 = r.Chance(0.6)
 	if c.Fault == "termcrash" {
@@ -699,6 +699,79 @@ func (c14) Run(e *simkit.Env, cc any) {
 		simkit.StopNode(e, b, false, 0)
 		e.Settle(time.Millisecond)
 		sn.CutAll()
+	case "halfopen":
+		// b loses power: nothing it had in flight arrives, no close reaches a, and a new
+		// incarnation of b comes up and dials a while a still believes the old connection alive
+		sn.BlackholeAll()
+		simkit.StopNode(e, b, false, 0)
+		e.Sleep(time.Duration(c.RestartMs) * time.Millisecond)
+		b2 = simkit.StartNetNode(e, sn, simkit.NetNodeOptions{Name: "b@h2", Cookie: "k", PoolSize: c.Pool})
+		if b2 == nil {
+			return
+		}
+		var hmu sync.Mutex
+		var newGot []string
+		nh := &Hooks{Name: "newtarget", Env: e}
+		nh.Message = func(p *Probe, from gen.PID, m any) error {
+			hmu.Lock()
+			newGot = append(newGot, fmt.Sprint(m))
+			hmu.Unlock()
+			return nil
+		}
+		nh.Call = func(p *Probe, from gen.PID, ref gen.Ref, req any) (any, error) {
+			hmu.Lock()
+			newGot = append(newGot, "call:"+fmt.Sprint(req))
+			hmu.Unlock()
+			return "new", nil
+		}
+		// the new incarnation spawns processes whose numeric ids repeat those of the old one
+		for i := 0; i < 6; i++ {
+			name := gen.Atom("")
+			if i == 3 {
+				name = "target"
+			}
+			var err error
+			if name != "" {
+				_, err = b2.SpawnRegister(name, ProbeFactory(nh), gen.ProcessOptions{})
+			} else {
+				_, err = b2.Spawn(ProbeFactory(nh), gen.ProcessOptions{})
+			}
+			if err != nil {
+				e.Infra("spawn on the restarted node: " + err.Error())
+				return
+			}
+		}
+		_, derr := b2.Network().GetNode("a@h1")
+		e.Logf("new incarnation of b dials a (which still holds the half-open connection) -> %v", derr)
+		e.Settle(2 * time.Second)
+		hdone := make(chan struct{})
+		hh := &Hooks{Name: "halfopen-prober", Env: e, Trap: true}
+		hh.Message = func(p *Probe, from gen.PID, m any) error {
+			p.Send(tPID, "old-id-send")
+			p.CallWithTimeout(tPID, "old-id-call", 2)
+			p.Send(tAlias, "old-alias-send")
+			p.SendImportant(tPID, "old-id-important")
+			close(hdone)
+			return nil
+		}
+		hp, _ := a.Spawn(ProbeFactory(hh), gen.ProcessOptions{})
+		a.Send(hp, "go")
+		if !e.WaitChan(hdone, 5*time.Minute) {
+			e.Fail("C14/request-hangs", "fault halfopen: operations on identifiers of the previous incarnation did not return within 5 simulated minutes")
+			return
+		}
+		e.Settle(3 * time.Second)
+		hmu.Lock()
+		defer hmu.Unlock()
+		for _, g := range newGot {
+			if g == "old-id-send" || g == "call:old-id-call" || g == "old-alias-send" || g == "old-id-important" {
+				e.Fail("C14/old-incarnation-delivered", "fault halfopen (b restarted unnoticed, the new incarnation dialled a): a process of the new incarnation received %q addressed to a process of the previous incarnation", g)
+				return
+			}
+		}
+		e.Probe("incarnation-refused")
+		// what a notices of a silent loss, and when, is not judged
+		return
 	case "partition":
 		sn.Refuse("h2", true)
 		sn.Refuse("h1", true)
